@@ -71,6 +71,8 @@ type VC struct {
 	errSentinels []string
 	boxed map[string]bool
 	curBlk int
+	loopFrames   []*loopFrame
+	curLoopFrame *loopFrame
 	suffix string // "@as:<Interface>" when verifying against an interface-method contract
 	reach  map[[2]int]bool // forward reachability between top-frame blocks
 }
